@@ -4,7 +4,8 @@
 EXTENDS Product, TLC
 CONSTANTS Depth
 States == {"None", "warning", "drift"}
-P(s, t) == [state |-> s, since |-> t, total |-> t, recs |-> <<-1, -1>>, nums |-> <<"0.5">>, tag |-> "x"]
+P(s, t) == [state |-> s, since |-> t, total |-> t, recs |-> <<-1, -1>>, nums |-> <<"0.5">>, tag |-> "x", thr |-> "1.0"]
+Pt(s, t, th) == [P(s, t) EXCEPT !.thr = th]
 VARIABLES ok
 vars == <<prodvars, ok>>
 Init == (\E r \in {"Equal", "EqualShifted", "FirstDriftNotLater", "WarningsSuperset", "EqualWhileAgree"} : InitWith(r)) /\ ok = TRUE
@@ -19,5 +20,10 @@ Reflexive == [][ \A s \in States : rel \in {"Equal", "EqualWhileAgree"} =>
 StrictFirstRefused == rel = "FirstDriftNotLater" /\ ~bDrifted =>
                         ~StepOK(P("drift", 1), P("None", 1), FALSE, TRUE, 0) /\ StepOK(P("drift", 1), P("drift", 1), FALSE, TRUE, 0)
 WarnLost == rel = "WarningsSuperset" => ~StepOK(P("warning", 1), P("None", 1), FALSE, TRUE, 0) /\ StepOK(P("None", 1), P("warning", 1), FALSE, TRUE, 0)
+(* a stricter run whose critical value is below the looser run's is refused while neither has alarmed; thresholds in the right order pass *)
+ThresholdOrder == rel = "FirstDriftNotLater" /\ ~bDrifted =>
+                    /\ ~StepOK(Pt("None", 1, "0.4"), Pt("None", 1, "0.6"), FALSE, TRUE, 0)
+                    /\ StepOK(Pt("None", 1, "0.6"), Pt("None", 1, "0.4"), FALSE, TRUE, 0)
+                    /\ StepOK(Pt("None", 1, "None"), Pt("None", 1, "0.4"), FALSE, TRUE, 0)
 ProtocolEnforced == rel = "EqualShifted" /\ prevA = "drift" => ~StepOK(P("None", 1), P("None", 1), FALSE, TRUE, 0)
 =============================================================================
